@@ -6,6 +6,7 @@ text, every run, every number of completed invocations and every environment
 of ReBench's own process.
 -/
 import RB.Proofs.Lemmas.Cmdline
+import RB.Proofs.Lemmas.CmdlineStrip
 
 namespace RB.Cmdline
 
@@ -213,6 +214,63 @@ example : PctFree ⟨['B'], .int 4, .str ['x'], .none, .none, ['E'], ['S'], .int
       | (cases hl; decide)
       | (cases hl; rename_i hk; exact absurd hk.symm hn)
       | cases hl
+
+/-! ### … with the `.strip()` of `_construct_cmdline` in between
+
+`RunId.cmdline()` is `(template % env1).strip()`; the pinned tree formatted *that* a second
+time, the repaired tree strips the one-step expansion.  Leading / trailing blanks do occur
+(`command: Harness %(input)s` with no input size, an `extra_args` ending in a blank), so the
+`strip` is not vacuous.  It commutes with the second phase because the invocation number is
+a non-empty string of digits (`fmt_env2_strip`). -/
+
+/-- the identity string, completed with the invocation number, is the command that is
+started — for `PctFree` configurations, blanks at either end included -/
+theorem c03_two_phase_strip_partial (cwd : Str) (r : Run) (k : Nat)
+    (h : PctFree r (template cwd r)) :
+    twoPhase cwd r k = (direct cwd r k).map some := by
+  have hfmt := c03_two_phase_eq_direct_partial r k (template cwd r) h
+  unfold twoPhaseFmt directFmt at hfmt
+  unfold twoPhase direct cmdline
+  cases h1 : fmt (env1 r) (template cwd r) with
+  | none =>
+    simp only [h1, Option.bind_none] at hfmt
+    simp [← hfmt]
+  | some s1 =>
+    simp only [h1, Option.bind_some] at hfmt
+    -- the one-step expansion succeeds as well: the dictionaries have the same keys
+    have hsome : ∃ y, fmt (envAll r k) (template cwd r) = some y := by
+      unfold fmt at h1 ⊢
+      cases hp : parse (template cwd r) with
+      | none => simp [hp] at h1
+      | some ts =>
+        simp only [hp, Option.bind_some] at h1 ⊢
+        have := render_isSome_inv r invPlaceholder (decimal k) ts
+        simp only [env1] at h1
+        rw [h1] at this
+        simp only [envAll]
+        cases hr : render (envWith r (decimal k)) ts with
+        | none => rw [hr] at this; cases this
+        | some y => exact ⟨y, rfl⟩
+    obtain ⟨y, hy⟩ := hsome
+    rw [hy] at hfmt
+    simp [hy, fmt_env2_strip k s1 y hfmt]
+
+/-- FULL STATEMENT (false of the two-phase mechanism):
+`∀ cwd r k, twoPhase cwd r k = (direct cwd r k).map some` — a command `100%%`: the second
+phase fails (`some none`: a traceback) where the one-step expansion gives `e 100%` -/
+theorem c03_two_phase_strip_full_fails :
+    ¬ ∀ (cwd : Str) (r : Run) (k : Nat), twoPhase cwd r k = (direct cwd r k).map some := by
+  intro h
+  have := h [] ⟨[], .none, .none, .none, .none, [], [], .none, .none, none, ['e'], none,
+    ['1', '0', '0', '%', '%'], none, false, none, [], 1, .plain⟩ 1
+  revert this
+  decide
+
+-- the strip matters: an empty input size leaves a trailing blank in the expansion
+example : fmt (env1 ⟨['B'], .none, .none, .none, .none, [], [], .none, .none, none, ['e'], none,
+    ['h', ' ', '%', '(', 'i', 'n', 'p', 'u', 't', ')', 's'], none, false, none, [], 1, .plain⟩)
+    ['e', ' ', 'h', ' ', '%', '(', 'i', 'n', 'p', 'u', 't', ')', 's'] = some ['e', ' ', 'h', ' '] := by
+  decide
 
 /-! ## "that run's value" for `warmup` when no level configures it
 
